@@ -114,7 +114,14 @@ class DefRecorder:
             fresh = (d == self.C.Definition(*d)) and (self.C.Definition(*d) == d) and not (d != self.C.Definition(*d))
         except Exception:
             fresh = False
-        self.ev('def.op', h=h, c=c, out=out, ret=ret, fresh_eq=fresh, shape_ok=shape_ok(d), post=self.post())
+        try:
+            sh = d.shape
+            dshape = [sh.objects, sh.properties]
+            dfill = [d.fill_ratio.numerator, d.fill_ratio.denominator] if sh.objects * sh.properties else [0, 0]
+        except Exception as exc:
+            dshape, dfill = [-1, -1], [0, 0]
+        self.ev('def.op', h=h, c=c, out=out, ret=ret, fresh_eq=fresh, shape_ok=shape_ok(d), dshape=dshape, dfill=dfill,
+                post=self.post())
         return out
 
     def derive(self, h, c, new):
